@@ -627,10 +627,25 @@ pub fn generate<M: Machine>(verif_seed: u64, run: u64) -> Trace {
     let len1 = if M::STREAMS == 2 { if M::LOCKSTEP { len0 } else { r.usize_in(1, max_len) } } else { 0 };
     let family = if flt == Flt::Int { r.below(10) as u8 } else { *r.pick(&[0u8, 1, 2, 3, 5, 6, 7, 8, 9]) };
     let scale_exp = if flt == Flt::Int { 0 } else { r.range(-20, 20) as i32 };
-    let tapes = [
+    let mut tapes = [
         TapeSpec::Gen { family, seed: r.next_u64(), len: len0 as u32, flt, positive, scale_exp },
         TapeSpec::Gen { family: *r.pick(&[0u8, 1, 2, 7]), seed: r.next_u64(), len: len1 as u32, flt, positive, scale_exp },
     ];
+    // two independent samples that happen to hold the same observations in a different order (an
+    // A/A comparison): once both are complete the two halves of the state agree in count, total
+    // and sum of squares as far as any query can tell, and differ only in their pending rounding
+    // residues - the checkpoint at the end of the run is taken in exactly that state
+    let len1 = if M::STREAMS == 2 && !M::LOCKSTEP && flt != Flt::Int && r.chance(0.2) {
+        let mut t = tapes[0].materialize();
+        for i in (1..t.len()).rev() {
+            let j = r.below(i as u64 + 1) as usize;
+            t.swap(i, j);
+        }
+        tapes[1] = TapeSpec::Explicit(t);
+        len0
+    } else {
+        len1
+    };
     let n_workers = r.usize_in(1, 4) as u16;
     let p_ckpt = *r.pick(&[0.1, 0.3, 0.6]);
     let p_crash = *r.pick(&[0.1, 0.3, 0.6]);
